@@ -364,6 +364,18 @@ def emit(seed, tier, with_numpy=False):
         if drv == "third_partial_derivative_vec":
             job["ijk"] = [2, 2, 0]
         jobs.append(job)
+    # lengths beyond the twelve the property names, for the two drivers that accept them (blocked or chunked evaluation
+    # paths would start somewhere): the callable must still see one call with n seeded numbers
+    for drv, n in (("gradient", 16), ("gradient", 33), ("gradient", 64), ("hessian", 16), ("hessian", 33)):
+        x = point(rng, n)
+        re = list(x)
+        ops = [{"op": "neg", "a": 0}]
+        re.append(-re[0])
+        for i in range(n):
+            ops.append({"op": "mul", "a": len(re) - 1, "b": i} if i % 3 == 0 else {"op": "add", "a": len(re) - 1, "b": i})
+            re.append(0.0)
+        jobs.append({"kind": "driver", "driver": drv, "x": [fbits(v) for v in x], "ops": bitsify(ops)})
+        jobs.append({"kind": "driver", "driver": drv, "x": [fbits(v) for v in x], "ops": bitsify([{"op": "neg", "a": 0}])})
     # gradual underflow inside a driver: a callable whose intermediates are subnormal must see them exactly as the Rust
     # closure does (a driver that switches the floating-point environment - flush-to-zero - while the callable runs would not)
     tiny = [{"op": "mul_f", "a": 0, "c": 1e-300}, {"op": "mul_f", "a": -1, "c": 1e-10}, {"op": "add", "a": -1, "b": -1}, {"op": "mul_f", "a": -1, "c": 0.5}]
